@@ -1,5 +1,7 @@
 """C09 — the nonce relation extracted from any ECDSA signature is exact; byte/int conversions round-trip."""
 import hashlib
+
+import gmpy2
 import json
 import random
 
@@ -98,6 +100,8 @@ def named_records(quick, rng):
     rc = refec.ref_of(c)
     n = rc.n
     d = rng.randrange(1, n)
+    # "modulo the curve order": the n of the curve table must be the order of its generator (reference arithmetic, once per curve)
+    order_ok = bool(rc.on_curve(rc.g) and rc.mul(n, rc.g) is None and gmpy2.is_prime(n))
     for hl in [0, 1, 20, 28, 32, 48, 64, 65, 66]:
       for rep in range(1 if quick else 6):
         msg = rng.getrandbits(64).to_bytes(8, 'big')
@@ -118,7 +122,7 @@ def named_records(quick, rng):
           rr, ss, zz = ec_util.ECDSAValues(sig, c)
           a, b = c.HiddenNumberParams(rr, ss, zz)
           rec['obs'] = {'fields_ok': int(rr) == r and int(ss) == s, 'z_ok': int(zz) == z,
-                        'relation_ok': (int(a) + int(b) * d - k) % n == 0}
+                        'relation_ok': (int(a) + int(b) * d - k) % n == 0, 'order_ok': order_ok}
         except Exception as e:  # pylint: disable=broad-except
           rec['raised'] = type(e).__name__
         recs.append(rec)
